@@ -23,7 +23,7 @@ THEOREMS = [
 ]
 PARTIAL = {
     'C08_mul_wallace_partial':
-        'add_mul_wallace (code repaired by fixes/D27.patch): the product is proved for ALL widths and length <= n + m; '
+        'add_mul_wallace (code repaired by fixes/D29.patch): the product is proved for ALL widths and length <= n + m; '
         'that the final shifted adder returns at least n + m bits (so that the length is exactly n + m) is computed '
         'for every width pair <= 6 only and otherwise checked by the direct oracle on every run',
     'C08_modes_return_with_the_stated_length_upto6':
@@ -60,7 +60,7 @@ LEVEL_NOTE = ('Coq kernel + vm_compute; translators T1, T4; correspondence harne
               'exact netlist equality, no hashing); theorems are conditional on the model run returning Ok; the model '
               'calls the C07 / C09 models of the summation / subtraction generators, which are of the repaired code '
               '(fixes/D5, D6, D7; none of the repaired branches is reachable from a multiplier); add_mul_wallace is modelled '
-              'as repaired by fixes/D27.patch (empty cells between gates of the two final rows are filled with a '
+              'as repaired by fixes/D29.patch (empty cells between gates of the two final rows are filled with a '
               'constant-false gate instead of being skipped: the pinned code returns wrong products for n = 2, '
               'm >= 11); value clauses of the '
               'add_sum_pow2_m1-based functions ask that the empty string is not a gate label (filter(None, .) would '
@@ -143,7 +143,7 @@ def correspondence(ctx, model_ok):
               'circuits and random host circuits with operands drawn among arbitrary existing gates (repetitions, '
               'one label for every bit, identical operand lists, operands that are outputs of the host), both '
               'endiannesses, squares up to 12 (16) bits, empty / missing operands, generate_mul / generate_square '
-              'for every mode, Wallace with n = 2 and m = 9..20 (D27: empty cells inside the final rows); (b) through the SAME Gallina functions extracted to OCaml (ExtrOcamlBasic + '
+              'for every mode, Wallace with n = 2 and m = 9..20 (D29: empty cells inside the final rows); (b) through the SAME Gallina functions extracted to OCaml (ExtrOcamlBasic + '
               'ExtrOcamlString; driver built inside the check; the driver prints the model result as text and the '
               'harness compares every line with the implementation state): the wide shapes on bare circuits - '
               'Karatsuba (both variants) at the recursion thresholds 17..21, 35, 37, 41 (thorough: 22..24, 34..42, 47, '
